@@ -1,16 +1,18 @@
 import IOptProofs.EvFwd
-import IOptProofs.EvFinCert
+import IOptProofs.EvDimFacts
 import Mathlib.Algebra.Order.Group.Abs
 import Mathlib.Algebra.Order.Group.Int
 /-!
 # C07 (integer layer): the evolvent visits every grid cell exactly once  (worker a1)
 
 Statements about `Ev.cubeY n ds` — the cube coordinates, in units of `2^-(m+1)`, of the image of the
-subinterval with base-`2^n` digits `ds` (`m = ds.length`) — for every dimension `n ∈ {2,3,4,5}` and
-**every** density `m` (induction over the digit list; no bound on `m`).
+subinterval with base-`2^n` digits `ds` (`m = ds.length`) — for every dimension `n` with `Ev.DimOK n`
+(`IOptProofs/EvDims.lean`: EVERY `n ≥ 2`) and **every** density `m` (induction over the digit list; no bound on `m`).
 The centre of cell `k` (`0 ≤ k < 2^m`) on an axis is `Y = 2k + 1 - 2^m`: `Y` odd, `|Y| ≤ 2^m - 1`.
 
-The finite facts about one level (`Ev.EvFacts n`) are kernel-evaluated in `IOptProofs/EvFinCert.lean`.
+The finite facts about one level (`Ev.EvFacts n`) are proved for every `n ≥ 2` in `IOptProofs/EvGen*.lean`
+(`Ev.evFacts_all`) and handed over in `IOptProofs/EvDimFacts.lean`; for n = 2..7 they are also kernel-evaluated
+(`IOptProofs/EvFinCert.lean`, `EvFinCert6.lean`, `EvFinCert7.lean`).
 -/
 
 namespace Ev
@@ -18,12 +20,11 @@ namespace Ev
 /-- **C07 (centres)**: for valid digits, `cubeY n ds` has `n` coordinates, each of them odd (for
 `m = ds.length ≥ 1`; at `m = 0` there is one cell, with centre `0`) and of absolute value at most
 `2^m - 1`: every image is the centre of a cell of the grid with `2^m` cells per axis. -/
-theorem C07_centres {n : Nat} (hn : n ∈ [2, 3, 4, 5]) {ds : List Nat} (hd : validDigits n ds) :
+theorem C07_centres {n : Nat} (hn : Ev.DimOK n) {ds : List Nat} (hd : validDigits n ds) :
     (cubeY n ds).length = n ∧
     ∀ y ∈ cubeY n ds, (ds ≠ [] → y % 2 = 1) ∧ |y| ≤ 2^ds.length - 1 := by
-  have F := evFacts_of_mem hn
-  have hn0 : 0 < n := by
-    simp only [List.mem_cons, List.not_mem_nil, or_false] at hn; omega
+  have F := evFacts_of_dimOK hn
+  have hn0 : 0 < n := hn.pos
   obtain ⟨hlen, hY⟩ := cubeY_spec F hn0 hd
   refine ⟨hlen, ?_⟩
   rw [forall_mem_iff_getI, hlen]
@@ -37,12 +38,11 @@ theorem C07_centres {n : Nat} (hn : n ∈ [2, 3, 4, 5]) {ds : List Nat} (hd : va
 
 /-- **C07 (centres, cell index form)**: every coordinate of `cubeY n ds` is `2k + 1 - 2^m` for a
 cell index `0 ≤ k < 2^m` (uniformly in `m ≥ 0`). -/
-theorem C07_centres_index {n : Nat} (hn : n ∈ [2, 3, 4, 5]) {ds : List Nat}
+theorem C07_centres_index {n : Nat} (hn : Ev.DimOK n) {ds : List Nat}
     (hd : validDigits n ds) :
     ∀ y ∈ cubeY n ds, ∃ k : Nat, k < 2^ds.length ∧ y = 2 * (k : Int) + 1 - 2^ds.length := by
-  have F := evFacts_of_mem hn
-  have hn0 : 0 < n := by
-    simp only [List.mem_cons, List.not_mem_nil, or_false] at hn; omega
+  have F := evFacts_of_dimOK hn
+  have hn0 : 0 < n := hn.pos
   obtain ⟨hlen, hY⟩ := cubeY_spec F hn0 hd
   rw [forall_mem_iff_getI, hlen]
   intro i hi
@@ -61,24 +61,22 @@ theorem C07_centres_index {n : Nat} (hn : n ∈ [2, 3, 4, 5]) {ds : List Nat}
 
 /-- **C07 (injectivity)**: different subintervals (digit lists of the same length) are mapped to
 different cells. -/
-theorem C07_injective {n : Nat} (hn : n ∈ [2, 3, 4, 5]) {ds ds' : List Nat}
+theorem C07_injective {n : Nat} (hn : Ev.DimOK n) {ds ds' : List Nat}
     (hd : validDigits n ds) (hd' : validDigits n ds') (hl : ds.length = ds'.length)
     (he : cubeY n ds = cubeY n ds') : ds = ds' := by
-  have F := evFacts_of_mem hn
-  have hn0 : 0 < n := by
-    simp only [List.mem_cons, List.not_mem_nil, or_false] at hn; omega
+  have F := evFacts_of_dimOK hn
+  have hn0 : 0 < n := hn.pos
   apply Yc_inj F (validState_init hn0) hd hd' hl
   intro i hi
   rw [← (cubeY_spec F hn0 hd).2 i hi, ← (cubeY_spec F hn0 hd').2 i hi, he]
 
 /-- **C07 (surjectivity)**: every cell is reached — every integer vector of length `n` with odd
 entries of absolute value at most `2^m - 1` is `cubeY n ds` for a valid digit list of length `m`. -/
-theorem C07_surjective {n : Nat} (hn : n ∈ [2, 3, 4, 5]) (m : Nat) (Y : List Int)
+theorem C07_surjective {n : Nat} (hn : Ev.DimOK n) (m : Nat) (Y : List Int)
     (hY : Y.length = n) (hc : ∀ y ∈ Y, y % 2 = 1 ∧ |y| ≤ 2^m - 1) :
     ∃ ds, ds.length = m ∧ validDigits n ds ∧ cubeY n ds = Y := by
-  have F := evFacts_of_mem hn
-  have hn0 : 0 < n := by
-    simp only [List.mem_cons, List.not_mem_nil, or_false] at hn; omega
+  have F := evFacts_of_dimOK hn
+  have hn0 : 0 < n := hn.pos
   have hcell : ∀ i, i < n → cell m (getI Y i) := by
     intro i hi
     obtain ⟨h1, h2⟩ := hc _ (getI_mem (by rw [hY]; exact hi))
@@ -108,7 +106,7 @@ theorem C07_index_digits (n : Nat) :
 
 /-- **C07 (exactly once, by index)**: for every cell `Y` of the `2^m`-per-axis grid there is exactly
 one subinterval index `i < 2^(n·m)` whose image is `Y`. -/
-theorem C07_cells_by_index {n : Nat} (hn : n ∈ [2, 3, 4, 5]) (m : Nat) (Y : List Int)
+theorem C07_cells_by_index {n : Nat} (hn : Ev.DimOK n) (m : Nat) (Y : List Int)
     (hY : Y.length = n) (hc : ∀ y ∈ Y, y % 2 = 1 ∧ |y| ≤ 2^m - 1) :
     ∃ i, (i < (2^n)^m ∧ cubeY n (digitsOf n m i) = Y) ∧
       ∀ j, j < (2^n)^m ∧ cubeY n (digitsOf n m j) = Y → j = i := by
@@ -124,9 +122,24 @@ theorem C07_cells_by_index {n : Nat} (hn : n ∈ [2, 3, 4, 5]) (m : Nat) (Y : Li
 
 /-- the hypotheses of `C07_centres`/`C07_injective` hold for the digits `[5, 2]`, `[5, 3]` (n = 3),
 whose images are the distinct cell centres `(1,3,3)` and `(1,3,1)` -/
-example : (3 ∈ [2, 3, 4, 5]) ∧ validDigits 3 [5, 2] ∧ validDigits 3 [5, 3] ∧ [5, 2] ≠ [] ∧
+example : (Ev.DimOK 3) ∧ validDigits 3 [5, 2] ∧ validDigits 3 [5, 3] ∧ [5, 2] ≠ [] ∧
     [5, 2].length = [5, 3].length ∧ cubeY 3 [5, 2] = [1, 3, 3] ∧ cubeY 3 [5, 3] = [1, 3, 1] := by
   decide
+
+/-- the same in the largest covered dimensions: `n = 7` (digits `[100, 5]`, `[100, 6]`: neighbouring
+subintervals, images differ in one coordinate) and `n = 6` (digits `[37, 63]`, `[38, 0]`: neighbours across a
+first-level boundary) -/
+example : (Ev.DimOK 7) ∧ validDigits 7 [100, 5] ∧ validDigits 7 [100, 6] ∧
+    cubeY 7 [100, 5] = [1, -3, 3, -3, 1, 1, -3] ∧ cubeY 7 [100, 6] = [1, -3, 3, -3, 1, 3, -3] ∧
+    (Ev.DimOK 6) ∧ validDigits 6 [37, 63] ∧ validDigits 6 [38, 0] ∧
+    cubeY 6 [37, 63] = [3, 3, -3, 3, 1, 1] ∧ cubeY 6 [38, 0] = [3, 3, -3, 3, -1, 1] := by
+  decide +kernel
+
+/-- a dimension beyond the kernel-evaluated certificates: `n = 10`, neighbouring subintervals `[700, 3]`, `[700, 4]` -/
+example : (Ev.DimOK 10) ∧ validDigits 10 [700, 3] ∧ validDigits 10 [700, 4] ∧
+    cubeY 10 [700, 3] = [3, 3, 3, 3, 3, -3, -3, -1, 1, -1] ∧
+    cubeY 10 [700, 4] = [1, 3, 3, 3, 3, -3, -3, -1, 1, -1] := by
+  decide +kernel
 
 /-- the hypotheses of `C07_surjective`/`C07_cells_by_index` hold for the cell `(3,-1,1)`,
 `n = 3`, `m = 2`; it is reached by the digits `[6, 0]`, i.e. by subinterval `48` -/
